@@ -264,6 +264,14 @@ def step (st : St) (pre post : List String) : St × Verdict :=
       else if toString r != res then (st, .diff s!"IsAfterCodecUpgrade({hh}) with upgrade height {g}: model={r} impl={res}")
       else (st, .ok)
     | _, _, _, _, _ => (st, .bad "isafter")
+  | ["jrt", ty, _mode] =>
+    -- parameter values (no schema): amino-JSON round trip judged on the harness' canonical rendering
+    match post with
+    | [js, eq, before, after] =>
+      if isErr js then (st, .propfail s!"roundtrip-changed-{ty}-json" s!"amino-JSON marshal failed for {before}")
+      else if eq = "1" && before = after then (st, .ok)
+      else (st, .propfail s!"roundtrip-changed-{ty}-json" s!"in={before} out={after}")
+    | _ => (st, .bad "jrt")
   | "c16" :: _ => (st, stepC16 st pre post)
   | "bigtext" :: _ => (st, stepC16 st pre post)
   | _ => (st, .bad "op")
